@@ -656,6 +656,10 @@ func (a *Act) goStmt(in *ssa.Go, st *State, reach string) {
 	// A goroutine start is a ghost event for the spawning function: no effect on its own state.
 	// Everything reachable from the arguments may be modified concurrently; that is outside the sequential claim (assumption A5).
 	a.g.note("go statement in %s treated as ghost event", shortFn(a.fn))
+	// ghost counter of goroutines started by the function under verification (contracts read it with spawned())
+	g := a.g
+	cur := sel(st.H["I"], ghostSpawnRef, "0")
+	st.H["I"] = g.def("HI", heapSort["I"], sto(st.H["I"], ghostSpawnRef, "0", fmt.Sprintf("(+ %s 1)", cur)))
 	if a.g.eng.goHook != nil {
 		a.g.eng.goHook(a, in, st, reach)
 	}
@@ -963,6 +967,21 @@ func (a *Act) mapWrittenInLoop(nx *ssa.Next) bool {
 				if bi, ok := x.Call.Value.(*ssa.Builtin); ok && bi.Name() == "delete" {
 					return true
 				}
+			}
+		}
+	}
+	return false
+}
+
+// ghostSpawnRef: the (negative, never allocated) reference whose slot 0 in the integer heap counts the go statements
+// executed so far
+const ghostSpawnRef = "(- 999983)"
+
+func fnHasGo(fn *ssa.Function) bool {
+	for _, b := range fn.Blocks {
+		for _, in := range b.Instrs {
+			if _, ok := in.(*ssa.Go); ok {
+				return true
 			}
 		}
 	}
